@@ -303,6 +303,26 @@ add('C17',
     "limitations, counted): reserved key tokens, the string 'NoneType', "
     "boolean arrays; memory layout and sign of zero are not compared.")
 
+add('C19',
+    "Hypothesis over layered models x surveys x extraction settings; "
+    "differential oracle: checker's own direct empymod.bipole calls built "
+    "from the generated description; method/merge invariance; weight facts "
+    "of extract_1d / ellipse_indices; layer-sum central finite differences "
+    "of the misfit of fresh simulations",
+    "Exploration: laterally invariant isotropic/VTI models in six mappings "
+    "on stretched grids, electric/magnetic point and dipole sources in all "
+    "coordinate formats (incl. negative strength, dipole length), "
+    "absolute and source-relative receivers, 1..3 frequencies, observed "
+    "none/full/gaps/all-NaN, five extraction methods with random ellipse "
+    "options and merge: every finite-observation entry equals the direct "
+    "1D reference (1e-10, coupling-null and measured-noise allowances), "
+    "NaN elsewhere; extraction weights non-negative, sum to one, equal the "
+    "documented area weights; ellipse symmetric; layered gradient layer "
+    "sums match central differences to first order.",
+    "Trusted: empymod on both sides (its physics and DLF accuracy are not "
+    "tested); noise allowance = 20 x the largest change of the reference "
+    "under ten 1e-15..1e-12 perturbations of the layers.")
+
 NOT_BUILT = "check not built yet (see DESIGN.md section 3 for the plan)"
 
 
